@@ -26,7 +26,8 @@ func TestMain(m *testing.M) {
 		"rapid state machine over the real SDK with spy AEAD/KMS/store/secret factory and both debug loggers captured; histories biased to bursts of tens to hundreds of encrypts per key over several partitions, with rotations and revocations. "+
 			"Oracle over the complete call logs: every AEAD encryption is one of exactly three legitimate forms (payload under a 32-byte key that the secret factory's CreateRandom produced in the same call and that never encrypted another payload; that DRK under the IK named by the record's ParentKeyMeta; a new IK under the SK named by the row written, of the same service/product), "+
 			"system keys reach only KMS.EncryptKey, no key plays two roles, all (key, nonce) pairs are distinct with 12-byte nonces, and no plaintext key bytes or payload marker occurs raw / base64 / hex in any returned record, in the record a caller handed to Decrypt as it looks afterwards (payloads up to 70 KB), stored row, log line or KMS request. "+
-			"One evaluation = one history. Non-trivial = >= 2 encrypts under one IK and >= 1 rotation; distinct = distinct (encrypt-count bucket, #IK generations, #SK generations, cache classes)",
+			"In addition the two real secret factories (one instance shared by all goroutines of a SessionFactory) are asked for random secrets by 2-16 goroutines at once, as concurrent encrypts do: right length, not all zero, no two alike. "+
+			"One evaluation = one history (or one concurrent run). Non-trivial = >= 2 encrypts under one IK and >= 1 rotation (a concurrent run always); distinct = distinct (encrypt-count bucket, #IK generations, #SK generations, cache classes)",
 		"key identities are established independently by unwrapping the stored rows with the harness KMS and crypto/cipher", "uniqueness, length and provenance are checked, not randomness quality")
 }
 
